@@ -383,6 +383,11 @@ def differential(pid, inputs):
         closers = ["x=1;", "%let a=1;", "data a;\nset b; run;", "%put done;", "/* c */\n y;", "%macro m; %mend;", "x='a''b';", "data;cards;\n1\n;",
                    "%do %while(&i<3); x&i %end;", "%do %until(&i>3); %put a; y %end;", "%macro v(n); %do i=1 %to &n; x&i %end; total %mend;",
                    "%if &a %then %do; z %end; %else %do; w %end;", "%m(a=1, b=(2,3))\n;", "%lbl: %goto lbl;", "%let q=%str(%'a);", "/* c */ * d;"]
+        # continuations that make carried-over state visible (a star comment with a macro trigger, datalines and
+        # an expression operand right at the boundary, a label, a statement keyword), then the head of the corpus
+        followers = ["* run %m(1) to test;\ndata a; set b; run;", "*%put debugging;\n%m(2);", "* plain comment; x=1;", "datalines;\n1 2\n;\nrun;",
+                     "cards4;\na;b\n;;;;", "%lbl: %put x;", "%put a; %let b=%eval(= 1);", "x = y * z; * c;", "%m(a=1)", "\n%end; %mend; * d %e;", "'unterminated"]
+        inputs = followers + [s for s in inputs if s not in followers]
         pairs = [(a, b) for a in closers for b in inputs[:400]]
         dA, iA = _write_dir("diff-C15a", closers)
         dB, iB = _write_dir("diff-C15b", inputs[:400])
